@@ -76,8 +76,12 @@ fn boss(detailed: bool, dry: bool, dels: Vec<EntryDetails>, copies: Vec<EntryDet
                 Ok(Command::GetFileContent { .. }) => {
                     match answers.get(k) {
                         None => return Ok(()),          // hangs up: the boss's receive fails
-                        Some(chunks) => for (sz, more) in chunks.iter() {
-                            if tx.send(Response::FileContent { data: vec![0u8; *sz], more_to_follow: *more }).is_err() { return Ok(()); }
+                        Some(chunks) => {
+                            for (sz, more) in chunks.iter() {
+                                if tx.send(Response::FileContent { data: vec![0u8; *sz], more_to_follow: *more }).is_err() { return Ok(()); }
+                            }
+                            // a reply that never says "last chunk": the stream ends there (the doer hangs up)
+                            if chunks.last().map(|c| c.1).unwrap_or(true) { return Ok(()); }
                         }
                     }
                     k += 1;
